@@ -43,8 +43,11 @@ def plan(tier, seed):
             shards.append({"kind": "mixed", "tier": tier, "seed": seed, "shard": i, "n": 2, "subprocess": True})
         shards.append({"kind": "idlespin", "tier": tier, "seed": seed, "shard": 0, "idle": 1300.0, "spins": 70000, "subprocess": True})
         shards.append({"kind": "livespin", "tier": tier, "seed": seed, "shard": 0, "spins": 70000, "subprocess": True})
+        shards.append({"kind": "livespin", "tier": tier, "seed": seed, "shard": 1, "spins": 70000, "keepalive": 0.0, "subprocess": True})
     else:
         shards.append({"kind": "livespin", "tier": tier, "seed": seed, "shard": 0, "spins": 140000, "subprocess": True})
+        shards.append({"kind": "livespin", "tier": tier, "seed": seed, "shard": 1, "spins": 140000, "keepalive": 0.0, "subprocess": True})
+        shards.append({"kind": "livespin", "tier": tier, "seed": seed, "shard": 2, "spins": 140000, "keepalive": 0.001, "subprocess": True})
         for i in range(3):
             shards.append({"kind": "idlespin", "tier": tier, "seed": seed, "shard": i, "idle": [1300.0, 2500.0, 4000.0][i], "spins": [70000, 140000, 200000][i],
                            "subprocess": True})
@@ -259,7 +262,14 @@ def run_livespin(cfg, out):
         w.net.heal(0.002)
         c = w.add_client()
         c.udp.setMessageTimeout(0.002)
+        if cfg.get("keepalive") is not None:
+            # an application that asks for keep-alives "as often as possible": the setting is legal (before and after connect) and the
+            # rate cap is not the application's to remove
+            c.udp.setKeepAliveInterval(cfg["keepalive"])
+            out["counters"].inc("livespin_worlds_with_keep_alive_interval_near_zero")
         c = w.connect_client(c)
+        if cfg.get("keepalive") is not None:
+            c.udp.setKeepAliveInterval(cfg["keepalive"])
         w.step(30)
         sc = run.sconn(c)
         key = c.udp.conn.session_key_bytes
